@@ -45,6 +45,9 @@ def jobs(tier, seed):
     for i in range(n):
         names = ["x", "y"][: rng.choice([1, 2])]
         out.append({"kind": "le", "L": rand_alts(rng, names, rng.randint(1, maxa), maxt, alphabet), "R": rand_alts(rng, names, rng.randint(1, maxa), maxt, alphabet), "vars": names})
+    # <= between nested lists asked right after the same question for alternatives that agree in four digits
+    for slope in (2.0004, 1.9996):
+        out.append({"kind": "le-sequence", "slope": slope})
     for i in range(n):
         # compound contracts: input x, output y; assumption alternatives are disjoint by construction
         # (x <= c, -x <= -c - gap ...) is left to the solver: alternatives over x with free constants
@@ -128,6 +131,18 @@ def run(ctx, job):
         ctx.obligation("accepted-only-if-no-shared-behaviour", overlap_robust)
         ctx.tag("ctor:OK")
         return {"cls": "ctor:OK"}
+    if kind == "le-sequence":
+        P = B.P()
+        X, Y = B.Var("x"), B.Var("y")
+        mk = lambda s, c: P.PolyhedralTermList([P.PolyhedralTerm({Y: 1.0, X: -s}, c), P.PolyhedralTerm({X: 1.0}, 1000.0), P.PolyhedralTerm({X: -1.0}, 0.0)])  # noqa: E731
+        G, same_, other = NestedPolyhedra([mk(2.0, 0.0)], False), NestedPolyhedra([mk(2.0, 0.0)], False), NestedPolyhedra([mk(job["slope"], 0.0)], False)
+        first = bool(G <= same_)
+        second = bool(G <= other) if job["slope"] < 2 else bool(other <= G)
+        ctx.tag("le-sequence")
+        ctx.expect("le-true-for-identical-alternatives", first is True)
+        # y <= 2x does not refine y <= 1.9996 x on 0 <= x <= 1000 (off by 0.4 at x = 1000); likewise y <= 2.0004 x vs y <= 2 x
+        ctx.expect("le-answer-independent-of-earlier-queries", second is False, info=f"slope {job['slope']}")
+        return {"cls": "le-sequence", "res": {"cmp": [first, second]}}
     if kind == "le":
         L = NestedPolyhedra(mk_alts(ctx, job["L"], "l"), False)
         R = NestedPolyhedra(mk_alts(ctx, job["R"], "r"), False)
